@@ -86,7 +86,10 @@ Fixpoint judge_steps (sc : schema) (i : N) (io : bool) (steps : list step) : N :
       | OCrash _ => 0
       | _ =>
           let io' := io && is_insert (s_batch st) in
-          let c := judge_queries sc st io' 0 (s_queries st) in
+          (* note 950: the harness-side sweep of the visited set (a node added twice is kept once, for largest
+             node ids around every size class of the pooled bit sets) failed *)
+          let c := if existsb (fun x => match x with XNote n => n =? 950 | _ => false end) (s_extra st) then 138
+                   else judge_queries sc st io' 0 (s_queries st) in
           if c =? 0 then judge_steps sc (i + 1) io' rest else c + 1000 * (i + 1)
       end
   end.
